@@ -106,18 +106,28 @@ def r101(ctx):
     lev = [x for x in r.events if x.kind == "loop" and x.func == r.func][0]
     tvar = lev.data["elem"]
     ok = A.eq(lev.data["iter"], A.entry(r, "range(len(self._hs))")) and all(e.data["key"] is tvar for e in st)
-    vals = {A.C.canon(e.data["value"]) for e in st}
+    # (value, guards) of every way a column is written: a store under an if / else, or one store of a conditional expression
+    writes = []
+    for e in st:
+        g0 = [A.C.canon(l) for l in pc_literals(e.pc) if l.op != "inloop"]
+        v0 = A.C.canon(e.data["value"])
+        if v0.op == "ite":
+            writes.append((v0.args[1], g0 + [v0.args[0]]))
+            writes.append((v0.args[2], g0 + [A.C._not(v0.args[0])]))
+        else:
+            writes.append((v0, g0))
+    vals = {v for v, _ in writes}
     want_h = A.C.canon(A.entry(r, "self._hs[T](X)", {"T": tvar}))
     ok = ok and want_h in vals and all(v is want_h or (v.op == "fn" and v.args[0] == "zeros") for v in vals)
     zero_guard = True
-    for e in st:
-        if A.C.canon(e.data["value"]) is not want_h:
-            lits = [A.C.canon(x) for x in pc_literals(e.pc)]
-            zero_guard = zero_guard and any(l is A.C.canon(A.entry(r, "self.weights_[T] == 0", {"T": tvar})) for l in lits)
+    w_zero = A.C.canon(A.entry(r, "self.weights_[T] == 0", {"T": tvar}))
+    for v, g in writes:
+        if v is not want_h:
+            zero_guard = zero_guard and any(l is w_zero for l in g)
     # every iteration stores the column: one unconditional store, or two stores under complementary guards
-    guards = [[l for l in pc_literals(e.pc) if l.op != "inloop"] for e in st]
-    covered = (len(st) == 1 and not guards[0]) or (len(st) == 2 and len(guards[0]) == 1 and len(guards[1]) == 1
-                                                   and A.C.canon(guards[0][0]) is A.C._not(A.C.canon(guards[1][0])))
+    guards = [g for _, g in writes]
+    covered = (len(writes) == 1 and not guards[0]) or (len(writes) == 2 and len(guards[0]) == 1 and len(guards[1]) == 1
+                                                       and A.C.canon(guards[0][0]) is A.C._not(A.C.canon(guards[1][0])))
     ctx.ob("R10.1", r.func, st[0].node, ok and zero_guard and covered, "column t of pred is the t-th stored predictor's output "
            "(zeros only where its weight is 0) and is stored on every path", construct="EG pred columns")
     # thresholder
@@ -206,7 +216,7 @@ def r103(ctx):
     ctx.floor("R10.3", "random_state.choice calls in the regression branch", len(ch), 1)
     pm = calls_to(r, EG + "._pmf_predict")
     for e in ch:
-        vals, p = arg(e, 0), kw(e, "p")
+        vals, p = arg(e, 0, "a"), kw(e, "p")
         lev = [x for x in r.events if x.kind == "loop" and x.data.get("lid") == e.loops[-1]][0]
         i = lev.data["elem"]
         pred = None
